@@ -4934,11 +4934,14 @@ class QntRmUnusedMacro(Macro):
         lhs, rhs = goal.args
         if not lhs.is_forall() and not lhs.is_exists():
             raise VeriTException("qnt_rm_unused", "lhs should have a quantifier")
-        l_vars, l_bd = lhs.strip_quant()
-        if rhs.is_forall() or rhs.is_exists():
-            r_vars, r_bd = rhs.strip_quant()
+        # Both sides are stripped of the same kind of quantifier only: a
+        # forall on one side never stands for an exists on the other.
+        if lhs.is_forall():
+            l_vars, l_bd = lhs.strip_forall()
+            r_vars, r_bd = rhs.strip_forall()
         else:
-            r_vars, r_bd = [], rhs
+            l_vars, l_bd = lhs.strip_exists()
+            r_vars, r_bd = rhs.strip_exists()
         free_vars = []
         if l_bd != r_bd:
             print("lhs", lhs)
